@@ -8,6 +8,9 @@
 //	                            identities reachable by GetAttr closure, identity seen under names, risor.Eval results
 //	c11obs sessions <repo-dir>  one JSON history per stdin line (one host map / VM / precompiled code under a sequence of
 //	                            configurations) -> one JSON observation per line (see c11lib/session.go)
+//	c11obs impsessions <repo-dir>  one JSON importer history per stdin line (2-4 configurations with kept VMs share ONE importer
+//	                            over local script modules; handlers are called after other configurations imported the same
+//	                            modules) -> one JSON observation per line (see c11lib/impsession.go)
 //	c11obs aliases <repo-dir>   pairs of distinct builtins of one default configuration that wrap the same Go function
 package main
 
@@ -25,7 +28,7 @@ import (
 
 func main() {
 	if len(os.Args) < 2 {
-		fmt.Fprintln(os.Stderr, "usage: c11obs base|configs|sessions|aliases <repo-dir>")
+		fmt.Fprintln(os.Stderr, "usage: c11obs base|configs|sessions|impsessions|aliases <repo-dir>")
 		os.Exit(2)
 	}
 	repo := "/repo"
@@ -99,6 +102,26 @@ func main() {
 				os.Exit(2)
 			}
 			obs := b.RunSession(spec)
+			j, _ := json.Marshal(obs)
+			w.Write(j)
+			w.WriteByte('\n')
+		}
+	case "impsessions":
+		sc := bufio.NewScanner(os.Stdin)
+		sc.Buffer(make([]byte, 1<<20), 1<<26)
+		real := os.Stdout
+		if null, err := os.OpenFile(os.DevNull, os.O_WRONLY, 0); err == nil {
+			os.Stdout = null
+		}
+		w := bufio.NewWriter(real)
+		defer w.Flush()
+		for sc.Scan() {
+			var spec c11lib.ImpSessionSpec
+			if err := json.Unmarshal(sc.Bytes(), &spec); err != nil {
+				fmt.Fprintln(os.Stderr, "bad importer session line:", err)
+				os.Exit(2)
+			}
+			obs := b.RunImpSession(spec)
 			j, _ := json.Marshal(obs)
 			w.Write(j)
 			w.WriteByte('\n')
